@@ -93,7 +93,12 @@ func checkC08(c *Ctx, r *Report) {
 	r.rule("C08.R2", "Price and AllowedUnits have the statement's form for every Request-Sub-Type possible on the path", 4)
 	r.rule("C08.R3", "server and CHF compute the same unit cost polynomial from the tariff sent in the answer", 2)
 	r.rule("C08.R4", "every path for a found account answers", 1)
+	r.rule("C08.R5", "the handler keeps no state between requests (no captured or package-level variable written)", 1)
 
+	if !handlerStateless(c, r, "C08.R5", "pkg/rf", "handleSUR") {
+		r.blockedBy("the handler keeps state between requests", "C08.R1", "C08.R2", "C08.R3", "C08.R4")
+		return // the model below assumes per-invocation variables
+	}
 	m := buildRfModel(c)
 	f, fe := m.f, m.fe
 	key := fnKey(f)
